@@ -41,6 +41,73 @@ def loop (raw : Nat) : Nat → Bytes → Bytes → M (Option Bytes)
                 loop raw f r2.2 out
           | _ => pure (some out)
 
+/-! ### compiled code: the same loop over arrays (`@[csimp]`, proved equal) -/
+
+def loopA (raw : Nat) : Nat → Bytes → Array UInt8 → M (Option (Array UInt8))
+  | 0, _, out => pure (some out)
+  | f+1, data, out =>
+    if data = [] ∨ ¬ out.size < raw then pure (some out)
+    else match data with
+      | [] => pure (some out)
+      | token :: d1 =>
+        let lit0 := token.toNat >>> 4
+        let r := if lit0 = 15 then readExt d1 15 else (lit0, d1)
+        let d2 := r.2
+        let litLen := if r.1 > d2.length then d2.length else r.1
+        let out := out ++ (d2.take litLen).toArray
+        let d3 := d2.drop litLen
+        if d3 = [] ∨ out.size ≥ raw then pure (some out)
+        else match d3 with
+          | o0 :: o1 :: d4 =>
+            let offset := o0.toNat ||| (o1.toNat <<< 8)
+            if offset = 0 then pure none
+            else
+              let ml0 := (token.toNat &&& 0x0F) + 4
+              let r2 := if ml0 = 19 then readExt d4 19 else (ml0, d4)
+              if offset > out.size then pure none
+              else do
+                let out ← copyLoopMA (out.size - offset) offset raw r2.1 0 out
+                loopA raw f r2.2 out
+          | _ => pure (some out)
+
+theorem loopA_eq (raw f : Nat) (data : Bytes) (out : Array UInt8) :
+    (loopA raw f data out).map (fun r => r.map Array.toList) = loop raw f data out.toList := by
+  induction f generalizing data out with
+  | zero => rfl
+  | succ f ih =>
+    simp only [loopA, loop, Array.length_toList]
+    split
+    · rfl
+    · rcases data with _ | ⟨token, d1⟩
+      · rfl
+      · simp only []
+        generalize hr : (if token.toNat >>> 4 = 15 then readExt d1 15 else (token.toNat >>> 4, d1)) = r
+        generalize hl : (if r.1 > r.2.length then r.2.length else r.1) = litLen
+        have ho : (out ++ (List.take litLen r.2).toArray).toList = out.toList ++ List.take litLen r.2 := by simp
+        have hs : (out ++ (List.take litLen r.2).toArray).size = (out.toList ++ List.take litLen r.2).length := by
+          rw [← ho]; simp
+        rw [hs]
+        split
+        · simp [Except.map, ho]
+        · rcases hd : List.drop litLen r.2 with _ | ⟨o0, _ | ⟨o1, d4⟩⟩
+          · simp [Except.map, ho]
+          · simp [Except.map, ho]
+          · simp only []
+            split
+            · rfl
+            · split
+              · rfl
+              · rw [← ho]
+                exact map_bind_copy _ _ _ _ _ _ _ _ _ (fun o => ih ..)
+
+def loopFast (raw f : Nat) (data out : Bytes) : M (Option Bytes) :=
+  (loopA raw f data out.toArray).map (fun r => r.map Array.toList)
+
+@[csimp] theorem loop_eq_fast : @loop = @loopFast := by
+  funext raw f data out
+  simp [loopFast, loopA_eq]
+
+
 /-- decompressLZ4; every iteration consumes the token byte, so `len(data)+1` iterations are enough -/
 def decompressLZ4 (data : Bytes) (rawSize : Nat) : M (Option Bytes) :=
   if data.length < 1 then pure none
